@@ -200,8 +200,7 @@ Lemma split_args_closed s : forall l, 0 < l ->
   let '(a, _, lf) := split_args s l in lf = 0 -> a <> [].
 Proof.
   destruct s as [|c s]; intros l Hl; cbn [split_args]; destruct (Z.eqb_spec l 0); try lia.
-  - cbn. intros; lia.
-  - destruct (split_args s _) as [[a r] lf]. cbn. intros _. discriminate.
+  destruct (split_args s _) as [[a r] lf]. cbn. intros _. discriminate.
 Qed.
 
 Lemma wrf_repeat (pre : list byte) k c :
@@ -238,7 +237,8 @@ Proof.
       rewrite IH; [|assumption|lia|lia|simpl in Hk; lia].
       destruct (split_args s l') as [[a r] lf].
       rewrite <- app_assoc. cbn [app length].
-      rewrite app_length. cbn [length]. repeat f_equal; lia.
+      rewrite app_length. cbn [length]. cbn [Nat.sub].
+      replace (length cpre + 1 + length a)%nat with (length cpre + S (length a))%nat by lia. reflexivity.
 Qed.
 
 (* ---------- the $ scans ---------- *)
